@@ -4,11 +4,14 @@ package main
 // status file, tolerant reader, status update after every session).
 
 import (
+	"encoding/json"
 	"fmt"
 	"go/constant"
 	"go/token"
 	"go/types"
 	"os"
+	"os/exec"
+	"path/filepath"
 	"sort"
 	"strings"
 
@@ -104,13 +107,14 @@ func constsWithPolarity(v ssa.Value, fn *ssa.Function) []constWhen {
 func checkC13(p *Prog, r *Report) {
 	ruleSharedStateInGoroutines(p, r, "R13.13", false)
 	ruleStatusFileOnly(p, r)
+	ruleCurrentPolicyStaysPlain(p, r)
 	r.rule("R13.14", "A crash of the session is a failed session: recover() is called in errlog.HandleAbort only, which turns an abort into exit status 1. Any other recover between the device code and the status update lets a crashed approve continue to the point where the result is recorded (a named result left at its zero value reads as success).")
 	ruleRecoverSites(p, r, "R13.14", "a recovered panic reaches the status update as a normal return; unless the result is set explicitly the crashed approve is recorded as OK")
 	ruleScannerErr(p, r, "R13.11", map[string]bool{"doapprove": true, "status": true, "missing-approve": true, "main": true, "device": true, "errlog": true})
 	ruleMustCalls(p, r, "R-PH", "C13")
 	r.rule("R13.1", "Writer/reader agreement on status constants, derived from the code of both sides: the constant status.SetApprove stores for failed=false is a case of missing-approve's switch on Approve.Result whose branch takes Approve.Policy as the device's policy, and the constant for failed=true is not; the constant SetCompare stores for changed=false is a reader case taking Compare.Policy, the constant for changed=true is a reader case that clears the device policy (device is listed); SetCompare's sticky test compares with the very constant it writes for changed=true; the reader consults the compare slot only when Compare.Time is later than the accepted approve time.")
 	r.rule("R13.3", "status.Read cannot abort: it contains no panic, no call of errlog.Abort/os.Exit/log.Fatal and ignores read/decode errors, so an unreadable status decodes to the zero value; for the zero value the reader's device policy is the empty string, which is listed.")
-	r.rule("R13.4", "The reader compares the code of the observed policy with the current one for every part of the target: directories code, code/ipv6 (and code/ipv4) crossed with suffixes \"\" and \".raw\"; the old side is read through a helper that falls back to <file>.bz2.")
+	r.rule("R13.4", "The reader compares the code of the observed policy with the current one for every part of the target: directories code, code/ipv6 (and code/ipv4) crossed with suffixes \"\" and \".raw\"; the old side is read through a helper that falls back to <file>.bz2: the plain file first, the compressed one only when that cannot be read (guard rows), and decoded content only when decoding ended without error.")
 	// ---- writers
 	type wr struct {
 		slot   string // Approve | Compare
@@ -474,6 +478,62 @@ func checkC13(p *Prog, r *Report) {
 		}
 	}
 	r.add("R13.4", "bz2-aware", "", "old policy files are also read from <file>.bz2", bz, "")
+	// the plain file is read first and the compressed one only when that fails (an interrupted
+	// compress leaves a partial <file>.bz2 next to the intact file); what was decoded counts
+	// only when decoding ended without error
+	ruleGuardTable(p, r, "R13.4", "C13")
+	for _, fn := range allModFuncs(p) {
+		if pkgOfFunc(fn) != "cmd/missing-approve" {
+			continue
+		}
+		for _, cs := range callsOf(fn) {
+			if cs.calleeName() != "io.ReadAll" {
+				continue
+			}
+			call, _ := cs.In.(*ssa.Call)
+			if call == nil {
+				continue
+			}
+			n, bad := 0, ""
+			decoded := func(v ssa.Value) bool {
+				for d := range valueDeps(v) {
+					if ex, ok := d.(*ssa.Extract); ok && ex.Tuple == ssa.Value(call) && ex.Index == 0 {
+						return true
+					}
+				}
+				return false
+			}
+			judge := func(in ssa.Instruction) {
+				n++
+				okg := false
+				for _, g := range guardSet(in) {
+					if strings.HasPrefix(g, "nil == result1(io.ReadAll(") {
+						okg = true
+					}
+				}
+				if !okg {
+					bad = p.ipos(in)
+				}
+			}
+			for _, b := range fn.Blocks {
+				for _, in := range b.Instrs {
+					switch x := in.(type) {
+					case *ssa.Return:
+						if len(x.Results) > 0 && decoded(x.Results[0]) {
+							judge(x)
+						}
+					case *ssa.Store:
+						// with a defer in the function the result travels through a cell
+						if _, isCell := x.Addr.(*ssa.Alloc); isCell && decoded(x.Val) {
+							judge(x)
+						}
+					}
+				}
+			}
+			r.add("R13.4", "decoded-only-without-error|"+shortName(fn), p.ipos(cs.In), fmt.Sprintf("%d return(s) of what io.ReadAll decoded are taken only when it reported no error", n), bad == "" && n > 0,
+				"a truncated <file>.bz2 is taken as the (shorter or empty) content of the old file; an old file that reads as empty equals a file that is gone, and the device is omitted: "+bad)
+		}
+	}
 	// ---- R13.2 status update after the session
 	ruleStatusAfterSession(p, r, "R13.2")
 	ruleTruthfulStatus(p, r, "R13.5")
@@ -1297,4 +1357,38 @@ func ruleStatusFileOnly(p *Prog, r *Report) {
 		}
 	}
 	r.floor("R13.12", "file operations of package status", n, 2)
+}
+
+// ruleCurrentPolicyStaysPlain: R13.15.  The reader walks the directory `current` points to and
+// takes every file name without a dot for a device; it reads the files of that policy with
+// os.ReadFile only (the bz2 fallback is for the observed, older policy).  That is right as long
+// as nothing compresses the current policy.
+func ruleCurrentPolicyStaysPlain(p *Prog, r *Report) {
+	r.rule("R13.15", "missing-approve (and do-approve) read the files of the policy `current` points to uncompressed: device names are the dot-free file names of current/code, contents come from os.ReadFile. So no script under bin/ may compress that directory: every pipeline that starts with a find at the policies directory and ends in a compressor (bzip2, gzip, xz, ...) leaves out the directory named by a variable assigned from $(readlink .../current) (`! -name \"$CURRENT\"`). Decided on bash's parse of each script by shell/c19.py --compress-facts; nothing is executed. A policy that stays current for compress_at days would otherwise have all its devices dropped from the list.")
+	cmd := exec.Command("python3", filepath.Join(verifDir(), "shell", "c19.py"), "--compress-facts")
+	cmd.Env = append(os.Environ(), "VERIF_REPO="+p.RepoDir, "VERIF_DIR="+verifDir())
+	out, err := cmd.Output()
+	type fact struct {
+		Script    string `json:"script"`
+		Ok        bool   `json:"ok"`
+		Commands  int    `json:"commands"`
+		Pipelines int    `json:"pipelines"`
+		Detail    string `json:"detail"`
+	}
+	var facts []fact
+	if err == nil {
+		err = json.Unmarshal(out, &facts)
+	}
+	if err != nil {
+		r.fail("R13.15", "compress|shell-scripts", "bin/", "shell scripts could not be analysed: "+err.Error(), "undecided")
+		return
+	}
+	pipes := 0
+	for _, f := range facts {
+		pipes += f.Pipelines
+		r.add("R13.15", "compress|bin/"+f.Script, "bin/"+f.Script, fmt.Sprintf("%d simple commands, %d compressing pipeline(s) below the policies directory, each leaves out the current policy", f.Commands, f.Pipelines), f.Ok,
+			"the current policy can be compressed: missing-approve then finds no device name in current/code and lists nothing, do-approve finds no code file: "+f.Detail)
+	}
+	r.floor("R13.15", "shell scripts under bin/ analysed", len(facts), 8)
+	r.floor("R13.15", "compressing pipelines found", pipes, 1)
 }
